@@ -1,6 +1,7 @@
 package builtin
 
 import (
+	"fmt"
 	"ti/base"
 )
 
@@ -24,11 +25,17 @@ func NewDefineBuiltinMethod(
 
 func (d *defineBuiltinMethod) setupMethodArgs(
 	method string,
+	argScope string,
 	argTypes []base.T,
 	isStatic bool,
 ) []string {
 
 	var argIdentifiers []string
+
+	// parameters of a second or later declaration live under their own name
+	if argScope != "" {
+		method = argScope
+	}
 
 	for _, argType := range argTypes {
 		switch argType.IsKeyValueType() {
@@ -69,15 +76,21 @@ func (d *defineBuiltinMethod) defineBuiltinInstanceMethod(
 	returnT base.T,
 ) {
 
-	argIdentifiers := d.setupMethodArgs(method, argTypes, false)
+	// an overload is a second declaration on the same class: a method that is
+	// only inherited (the parent was loaded first) must not capture it
+	existingT := base.GetOwnMethodT(frame, d.targetClass, method, false)
+
+	argScope := ""
+	if existingT != nil {
+		argScope = fmt.Sprintf("%s#%d", method, len(existingT.Overloads)+1)
+	}
+
+	argIdentifiers := d.setupMethodArgs(method, argScope, argTypes, false)
 	methodT := base.MakeMethod(frame, method, returnT, argIdentifiers)
 	methodT.DefinedFrame = frame
 	methodT.DefinedClass = d.targetClass
 	methodT.IsStatic = false
-
-	// an overload is a second declaration on the same class: a method that is
-	// only inherited (the parent was loaded first) must not capture it
-	existingT := base.GetOwnMethodT(frame, d.targetClass, method, false)
+	methodT.ArgScope = argScope
 
 	if existingT != nil {
 		existingT.Overloads = append(existingT.Overloads, *methodT)
@@ -109,12 +122,20 @@ func (d *defineBuiltinMethod) defineBuiltinStaticMethod(
 	returnT base.T,
 ) {
 
-	argIdentifiers := d.setupMethodArgs(method, argTypes, true)
+	staticExistingT := base.GetOwnClassMethodT(frame, d.targetClass, method, false)
+
+	argScope := ""
+	if staticExistingT != nil {
+		argScope = fmt.Sprintf("%s#%d", method, len(staticExistingT.Overloads)+1)
+	}
+
+	argIdentifiers := d.setupMethodArgs(method, argScope, argTypes, true)
 
 	methodT := base.MakeMethod(frame, method, returnT, argIdentifiers)
 	methodT.DefinedFrame = frame
 	methodT.DefinedClass = d.targetClass
 	methodT.IsStatic = true
+	methodT.ArgScope = argScope
 
 	methodT.SetBeforeEvaluateCode(
 		base.CalculateFrame(frame, d.targetClass) + "::" + method,
